@@ -1,6 +1,6 @@
 (** C03 - nothing outside the loaded torrents' export subtrees is ever touched.  Statements only. *)
 From TB Require Import Base Decimal BencodeModel TorrentModel TorrentProofs PathModel FsModel SolverModel FinderModel RunModel
-                       SolverProofs RunProofs FsProofs FaultProofs PreludeProofs TableProofs Generated GeneratedObligations.
+                       SolverProofs RunProofs FsProofs FaultProofs PreludeProofs TableProofs Generated GeneratedObligations SystemModel SystemProofs GlueProofs RunExample.
 Local Open Scope N_scope.
 
 (** Every mutating operation of a piece evaluation names the export path of one of the piece's
@@ -38,8 +38,23 @@ Theorem C03_unnamed_inodes_unchanged f o f' ok j : apply_op f o = (f', ok) ->
   fs_lookup f (op_path o) <> Some (NFile j) -> fs_content f' j = fs_content f j.
 Proof. intros Ha Hn. destruct (apply_op_content f o f' ok j Ha) as [He|[Hl _]]; [exact He|contradiction]. Qed.
 
+(** WHOLE RUN, every reachable state of the scanning phase (any interleaving, faults, crash point):
+    no path is removed, renamed or retyped; an inode that is not the export image of a non-padding
+    table entry keeps its exact content - every file reached through a scan directory, every
+    bystander (unless it is a hard link of an export file); and whatever appears is a directory on
+    the way to an export file or an export file itself (a fresh inode). *)
+Theorem C03_whole_run_outside_untouched H content export ts ix es ws f0 pool0 s :
+  run_setup H content export ts ix es ws f0 pool0 -> sreach {| s_fs := f0; s_pool := pool0 |} s ->
+  (forall p n, fs_lookup f0 p = Some n -> fs_lookup (s_fs s) p = Some n) /\
+  (forall i, (forall e, ~ owner es (s_fs s) i e) -> fs_content (s_fs s) i = fs_content f0 i) /\
+  (forall p n, fs_lookup f0 p = None -> fs_lookup (s_fs s) p = Some n ->
+     (n = NDir /\ exists e, nonpad es e /\ In p (prefixes (parent (e_target e)))) \/
+     (exists e i, nonpad es e /\ p = e_target e /\ n = NFile i /\ fresh_ino f0 <= i)).
+Proof. exact (whole_run_outside_untouched H content export ts ix es ws f0 pool0 s). Qed.
+
 Print Assumptions C03_targets_confined.
 Print Assumptions C03_loaded_name_plain.
 Print Assumptions C03_open_modes.
 Print Assumptions C03_resize_ops_on_targets.
 Print Assumptions C03_unnamed_inodes_unchanged.
+Print Assumptions C03_whole_run_outside_untouched.
